@@ -103,8 +103,13 @@ package endorse
 //@   ensures[C15] ecOf(ctx).DryRun ==> copsCalls == old(copsCalls) && vcGetOps == old(vcGetOps)
 //@   ensures[C14] err == nil && !ecOf(ctx).DryRun && ecOf(ctx).SnapshotDir == "" ==> parsedWasLastRead
 
+// C14 (reports success exactly when a commit succeeded and was recorded once): one submission - success means exactly
+// one result was recorded with the backend, failure means none.
 //@ func commitEndorsement
-//@   modifies copsCalls, lastRead, lastReadErr, copsWrites, checkedMissing, marshalOf, parsedWasLastRead, pbsrc, pbok, vcGetOps, vcOpened, vcResults, copsDestroyed, copsCommitTries, copsCommitsOK, lastRetriable
+//@   modifies copsCalls, lastRead, lastReadErr, copsWrites, checkedMissing, marshalOf, parsedWasLastRead, pbsrc, pbok, vcGetOps, vcOpened, vcResults, copsDestroyed, copsCommitTries, copsCommitsOK, lastRetriable, commitSubmits
+//@   ghostset commitSubmits = commitSubmits + 1
+//@   ensures[C14] ecOf(ctx) != nil && result == nil ==> vcResults == old(vcResults) + 1
+//@   ensures[C14] ecOf(ctx) != nil && result != nil ==> vcResults == old(vcResults)
 //@   requires ecOf(ctx) == nil || (ecOf(ctx).VCS != nil && ecOf(ctx).CommitRetries < 9223372036854775807)
 //@   sweep[C15] nilinvoke nilcall
 //@   ensures[C15] ecOf(ctx) != nil && ecOf(ctx).DryRun ==> copsCalls == old(copsCalls) && vcGetOps == old(vcGetOps)
@@ -120,7 +125,9 @@ package endorse
 //@   ensures[C15] signerCalls == old(signerCalls) && caCalls == old(caCalls) && vcGetOps == old(vcGetOps) && copsCalls == old(copsCalls)
 
 //@ func SignDoc
-//@   modifies signerCalls, caCalls, sigKey, sigDigest, lastSig, caPrimary, certKeyArg, lastCert, bundleKeyArg, lastBundle, marshalOf
+//@   modifies signerCalls, caCalls, sigKey, sigDigest, lastSig, caPrimary, certKeyArg, lastCert, bundleKeyArg, lastBundle, marshalOf, lastCertOK, lastBundleOK
+// (a document is only signed when the signer's certificate and the CA bundle were actually obtained)
+//@   ensures[C03] err == nil ==> lastCertOK && lastBundleOK
 //@   requires doc != nil
 //@   assigns doc.Cert, doc.CaBundle, doc.Timestamp
 //@   ensures[C03] err == nil ==> result != nil && sigKey == caPrimary && certKeyArg == caPrimary && bundleKeyArg == caPrimary
@@ -131,11 +138,15 @@ package endorse
 //@   ensures[C15] vcGetOps == old(vcGetOps) && copsCalls == old(copsCalls)
 
 //@ func VirtualFirmware
-//@   modifies copsCalls, lastRead, lastReadErr, copsWrites, checkedMissing, marshalOf, parsedWasLastRead, pbsrc, pbok, vcGetOps, vcOpened, vcResults, copsDestroyed, copsCommitTries, copsCommitsOK, lastRetriable, signerCalls, caCalls, sigKey, sigDigest, lastSig, caPrimary, certKeyArg, lastCert, bundleKeyArg, lastBundle, snpImage, tdxImage
+//@   modifies copsCalls, lastRead, lastReadErr, copsWrites, checkedMissing, marshalOf, parsedWasLastRead, pbsrc, pbok, vcGetOps, vcOpened, vcResults, copsDestroyed, copsCommitTries, copsCommitsOK, lastRetriable, signerCalls, caCalls, sigKey, sigDigest, lastSig, caPrimary, certKeyArg, lastCert, bundleKeyArg, lastBundle, snpImage, tdxImage, commitSubmits, lastCertOK, lastBundleOK
 //@   requires ecOf(ctx) == nil || (ecOf(ctx).CommitRetries < 9223372036854775807 && forall(i, 0 <= i && i < len(ecOf(ctx).VCSs) ==> ecOf(ctx).VCSs[i] != nil))
 //@   sweep[C15] nilinvoke nilcall
 //@   ensures[C15] ecOf(ctx) != nil && old(ecOf(ctx).MeasurementOnly) ==> signerCalls == old(signerCalls) && caCalls == old(caCalls) && vcGetOps == old(vcGetOps) && copsCalls == old(copsCalls)
 //@   ensures[C15] ecOf(ctx) != nil && old(ecOf(ctx).DryRun) ==> vcGetOps == old(vcGetOps) && copsCalls == old(copsCalls)
+// C14 (each backend is submitted to once per run): a run submits once to every backend of VCSs - or once to the lone
+// VCS when VCSs is empty - and to nothing else.
+//@   ensures[C14] err == nil && ecOf(ctx) != nil && !old(ecOf(ctx).MeasurementOnly) ==> commitSubmits == old(commitSubmits) + ite(old(len(ecOf(ctx).VCSs)) == 0, ite(old(ecOf(ctx).VCS) != nil, 1, 0), old(len(ecOf(ctx).VCSs)))
+//@   loop 1 invariant[C14] commitSubmits == old(commitSubmits) + rangeindex + 1 && len(ec.VCSs) == ite(old(len(ecOf(ctx).VCSs)) == 0, ite(old(ecOf(ctx).VCS) != nil, 1, 0), old(len(ecOf(ctx).VCSs)))
 //@   loop 1 invariant ec == ecOf(ctx) && ec != nil && ec.DryRun == old(ecOf(ctx).DryRun) && ec.CommitRetries < 9223372036854775807
 //@   loop 1 invariant ec.DryRun ==> vcGetOps == old(vcGetOps) && copsCalls == old(copsCalls)
 //@   loop 1 invariant forall(i, 0 <= i && i < len(ec.VCSs) ==> ec.VCSs[i] != nil)
@@ -174,3 +185,18 @@ package endorse
 //@   requires[C13] forall(i, 0 <= i && i < len(entries) ==> entries[i] != nil)
 //@   atcall removeDigest requires[C13] p1 == hexOf(val(entry.Digest))
 //@   ensures[C13] forall(i, 0 <= i && i < len(result) ==> true)
+
+// C16 (the emitted SP800-155 events carry one UEFI-variable locator and one URI locator): each event is built for
+// exactly its locator kind - type 3 (UEFI variable) with the FirmwareRIM variable locator, type 1 (URI) with the
+// bucket URL of the signed firmware - and the event records the kind and locator it was given.
+//@ func googleSp800155Event
+//@   assigns nothing
+//@   ensures[C16] result != nil && fresh(result) && result.RIMLocatorType == locType && same(result.RIMLocator.Data, loc) && result.PlatformManufacturerID == 11129 && result.FirmwareManufacturerID == 11129
+
+//@ func varEvent
+//@   modifies *
+//@   atcall googleSp800155Event requires[C16] p1 == 3 && same(p2, rimVar)
+
+//@ func uriEvent
+//@   modifies *
+//@   atcall googleSp800155Event requires[C16] p1 == 1 && p2 != nil
